@@ -111,7 +111,7 @@ def run(ctx):
             kt = e.operand(gc[0].args[1])
             okk = P.has(P.field('tip_block_hash', tok))(kt) or P.named('tip_block_hash')(kt)
             off = a[4]
-            oko = P.agg(variant='Some', _0=P.agg('Utxo', height=P.either(P.field('height', tok), P.named('height')), outpoint=P.either(P.field('outpoint', tok), P.named('outpoint'))))(off)
+            oko = P.agg(variant='Some', _0=P.agg('Utxo', height=P.either(P.field('height', tok), P.named('height')), outpoint=P.either(P.field('outpoint', tok), P.named('outpoint')), value=P.const(0)))(off)
             ctx.check(okc and okk and oko, 'R5', 'page-walk-inputs', page_walk[0], 'a page request walks get_chain_with_tip(token tip) and resumes at the token\'s (height, outpoint)', 'page walk inputs: chain=%s key=%s offset=%s' % (okc, okk, oko))
     # R2 layout
     fbf = ctx.fn('R2', T + 'Page::from_bytes')
